@@ -186,8 +186,8 @@ def judge(rep, behs):
 
 
 def run(rep):
-    cfgs = ['MC_Equation_quick.cfg'] if rep.tier == 'quick' else \
-        ['MC_Equation_quick.cfg', 'MC_Equation_thorough.cfg', 'MC_Equation_thorough2.cfg']
+    cfgs = ['MC_Equation_quick.cfg', 'MC_Equation_quick2.cfg'] if rep.tier == 'quick' else \
+        ['MC_Equation_quick.cfg', 'MC_Equation_quick2.cfg', 'MC_Equation_thorough.cfg', 'MC_Equation_thorough2.cfg']
     rep.rule = ('behaviours = all maximal histories of the bounded Equation instance emitted by TLC '
                 '(Start kind x lead, then <= MaxTerms AddTerm forms; or one Join of a list <= MaxJoin); '
                 'distinct = distinct behaviour JSON; non-trivial = at least one AddTerm / a list of >= 2 elements')
